@@ -349,3 +349,23 @@ def stage_apalache_mailbox(pid, tier, seed, d, binp, st, ctx):
     ctx["log"]("apalache: capacity invariant of the mailbox semaphore is inductive for every capacity (3 obligations)")
     return dict(coverage={"tool": "apalache-mc 0.58", "obligations": res, "capacity": "symbolic, Cap >= 1", "senders": 5},
                 violations=[], traces=0, samples=[], nontrivial_keys=[])
+
+
+def stage_small_model(pid, tier, seed, d, binp, st, ctx):
+    """Exhaustive TLC run of a small stand-alone module (fine-grained sub-models); must complete without error."""
+    mod = st["module"]
+    cfg = st["cfg"][tier]
+    name = "%s_%s" % (mod, st["name"])
+    open(os.path.join(d, name + ".cfg"), "w").write(cfg)
+    p = subprocess.run(JAVA[:2] + ["-Xmx8g"] + JAVA[4:] + ["-workers", "8", "-metadir", os.path.join(d, "meta_" + name),
+                        "-noGenerateSpecTE", "-config", name + ".cfg", mod + ".tla"],
+                       cwd=d, text=True, stdout=subprocess.PIPE, stderr=subprocess.STDOUT, timeout=st.get("timeout", 1800))
+    out = p.stdout
+    m = re.findall(r"(\d[\d,]*) states generated, (\d[\d,]*) distinct states found", out)
+    g, ds = (int(m[-1][0].replace(",", "")), int(m[-1][1].replace(",", ""))) if m else (0, 0)
+    if "Model checking completed. No error has been found." not in out:
+        open(os.path.join(d, name + ".out"), "w").write(out)
+        raise ctx["ToolError"]("MODEL FAILURE: %s does not satisfy its properties (see %s.out)" % (mod, name))
+    ctx["log"]("%s: %d states, all invariants / temporal properties hold" % (mod, ds))
+    return dict(coverage={"module": mod, "states": ds, "transitions": g}, violations=[], traces=0, states=ds, transitions=g,
+                samples=[], nontrivial_keys=[])
